@@ -36,7 +36,11 @@ def interp_analysis(repo: Repo) -> Dict[str, Any]:
         escapes.append((tag or "Evaluator.evaluate", exc, short_why(eng.explain(key, (exc, tag)))))
         origins.setdefault((tag or "Evaluator.evaluate", exc), [])
         origins[(tag or "Evaluator.evaluate", exc)] = sorted(set(origins[(tag or "Evaluator.evaluate", exc)]) | set(eng.origins(key, (exc, tag))))
-    out = {"engine": eng, "escapes": escapes, "all": sorted(effs), "key": key, "origins": origins}
+    sites: Dict[Tuple[str, str], List[Tuple[str, str]]] = {}
+    for exc, tag in sorted(effs):
+        sites.setdefault((tag or "Evaluator.evaluate", exc), [])
+        sites[(tag or "Evaluator.evaluate", exc)] += eng.origin_sites(key, (exc, tag))
+    out = {"engine": eng, "escapes": escapes, "all": sorted(effs), "key": key, "origins": origins, "origin_sites": sites}
     _cache[k] = out
     return out
 
